@@ -185,7 +185,6 @@ PROPS = {
         "assumptions": ["lossy codecs (zfp, fixedscaleoffset, bitround) are not exercised here"],
     },
     "C15": {
-        "claimed": False,
         "lean_props": ["ZarrsModel.Props.C15"],
         "harness": "c15",
         "rule": "five configuration families (checksum outermost; checksum inside a compressor; sharding outermost with plain index; with crc32c index; random chains) x after a write history, for 2-3 chunks: "
